@@ -33,6 +33,16 @@ Min2(a, b) == IF a < b THEN a ELSE b
 
 \* (a + b) mod 2^31 without leaving 32-bit integers
 AddMod31(a, b) == IF a > M31 - b THEN a - (M31 - b) - 1 ELSE a + b
+\* (b - a) mod 2^31: the delta a sender whose clock rolled over puts on the wire
+Delta31(a, b) == IF b >= a THEN b - a ELSE ((b - a) + M31) + 1
+\* A sender's clock runs forward.  Message timestamps are the 31-bit values the property defines; a later message with
+\* a smaller 31-bit timestamp is a roll-over (32-bit clock passing 2^31 or 2^32) if it is less than RollWindow ahead,
+\* otherwise the clock went backwards and section 5.3.1.2.1 demands a type-0 header.
+RollWindow == 1073741824          \* 2^30
+Forward(a, b) == b >= a \/ Delta31(a, b) < RollWindow
+\* the receiver's timestamp sum (previous timestamp a, delta d, d taken from an extended field or not): reduced to
+\* 31 bits after EVERY addition.  Named deviations replace this operator in a cfg (RxAdd <- ...).
+RxAdd(a, d, isext) == AddMod31(a, d)
 
 AllCids == DataCids \cup {2}
 
@@ -68,10 +78,10 @@ FormsOf(cid) == IF cid <= 63 THEN {1}
 Allowed(f, cid, m) ==
   LET c == cst[cid] IN
   CASE f = 0 -> TRUE
-    [] f = 1 -> c.has /\ c.sid = m.sid /\ m.ts >= c.ts
-    [] f = 2 -> c.has /\ c.sid = m.sid /\ m.ts >= c.ts /\ c.len = MsgLen(m) /\ c.type = m.type
-    [] f = 3 -> c.has /\ c.sid = m.sid /\ m.ts >= c.ts /\ c.len = MsgLen(m) /\ c.type = m.type
-                /\ m.ts - c.ts = c.delta
+    [] f = 1 -> c.has /\ c.sid = m.sid /\ Forward(c.ts, m.ts)
+    [] f = 2 -> c.has /\ c.sid = m.sid /\ Forward(c.ts, m.ts) /\ c.len = MsgLen(m) /\ c.type = m.type
+    [] f = 3 -> c.has /\ c.sid = m.sid /\ Forward(c.ts, m.ts) /\ c.len = MsgLen(m) /\ c.type = m.type
+                /\ Delta31(c.ts, m.ts) = c.delta
 
 Chunk(f, cid, form, tsf, ext, top, m, pay, off) ==
   [fmt |-> f, cid |-> cid, form |-> form, tsf |-> tsf, ext |-> ext, top |-> top,
@@ -88,7 +98,7 @@ Start(m, cid, f, form, top) ==
   /\ \/ f \in Fmts /\ Allowed(f, cid, m)
      \/ LibrtmpPing /\ f = 1 /\ cid = 2 /\ ~cst[2].has /\ m.ctl = "uc" /\ m.sid = 0
   /\ LET c      == cst[cid]
-         tsval  == IF f = 0 \/ ~c.has THEN m.ts ELSE m.ts - c.ts   \* absolute, or delta
+         tsval  == IF f = 0 \/ ~c.has THEN m.ts ELSE Delta31(c.ts, m.ts)   \* absolute, or delta (mod 2^31)
          isext  == IF f = 3 THEN c.ext ELSE tsval >= X24
          extval == IF f = 3 THEN c.extval ELSE tsval
          pay    == Min2(scs, MsgLen(m))
@@ -183,8 +193,8 @@ RxStep(st, ch) ==
         v     == IF ch.ext >= 0 THEN ch.ext ELSE ch.tsf        \* timestamp field value (masked to 31 bits)
         ts2   == IF ~first THEN c.ts
                  ELSE CASE ch.fmt = 0 -> v
-                        [] ch.fmt \in {1, 2} -> IF ExtDelta \/ ch.ext < 0 THEN AddMod31(c.ts, v) ELSE v
-                        [] ch.fmt = 3 -> AddMod31(c.ts, c.delta)
+                        [] ch.fmt \in {1, 2} -> IF ExtDelta \/ ch.ext < 0 THEN RxAdd(c.ts, v, ch.ext >= 0) ELSE v
+                        [] ch.fmt = 3 -> RxAdd(c.ts, c.delta, ch.ext >= 0)
         d2    == IF ~first \/ ch.fmt = 3 THEN c.delta ELSE v
         len2  == IF ch.fmt <= 1 THEN ch.len ELSE c.len
         ty2   == IF ch.fmt <= 1 THEN ch.type ELSE c.type
